@@ -162,6 +162,20 @@ fn wide_trees() -> Vec<Tree> {
         }
         out.push(t);
     }
+    // names the index has to escape (quote, backslash, newline, tab), some of them matched by the
+    // patterns and some kept, in one hunk with ordinary names
+    let mut t = crate::tree::empty_tree();
+    let t0 = crate::tree::T0 + 760;
+    t.insert("a.txt".into(), crate::tree::Node::file(b"x", t0));
+    t.insert("a".into(), crate::tree::Node::dir(t0 + 1));
+    t.insert("a/b".into(), crate::tree::Node::file(b"x", t0 + 2));
+    t.insert("a/we\"ird.txt".into(), crate::tree::Node::file(b"x", t0 + 3));
+    t.insert("a/back\\slash".into(), crate::tree::Node::file(b"x", t0 + 4));
+    t.insert("b".into(), crate::tree::Node::dir(t0 + 5));
+    t.insert("b/new\nline".into(), crate::tree::Node::file(b"x", t0 + 6));
+    t.insert("b/a".into(), crate::tree::Node::symlink("../a", t0 + 7));
+    t.insert("ab\tc".into(), crate::tree::Node::file(b"x", t0 + 8));
+    out.push(t);
     out
 }
 
